@@ -54,7 +54,9 @@ Registrars == IF Rich THEN {"global", "schema", "schema_hooks", "test"} ELSE {"g
 ScopeOf(r) == IF r = "schema_hooks" THEN "schema" ELSE r
 FilteredForms == IF Narrow THEN {"filt_bare"} ELSE {"filt_bare", "filt_named", "named_filt"}
 PlainForms == IF Narrow THEN {"bare"} ELSE {"bare", "named"}
-UsedChains == IF Narrow THEN (IF MaxLen > 3 THEN {"C1", "C2"} ELSE {"C2"}) ELSE ChainIds
+UsedChains == IF Narrow THEN (IF MaxLen > 3 THEN {"C1", "C2"} ELSE {"C2"})
+              ELSE IF ~Rich /\ MaxReg <= 2 THEN {"C2", "C3"}      \* quick pairs: exclude-only (by tag) and include + exclude
+              ELSE ChainIds
 
 (* plans: hook name of the k-th registration, and the order in which the schemas are used *)
 Plan(names, order) == [names |-> names, order |-> order]
